@@ -14,8 +14,9 @@
   lower-case to an ASCII rune — are regenerated from the compiled unicode tables into
   Hy.Gen.App and compared in Props/C10.
 
-  `stringToBps` is the code WITH fixes/D15.patch (a product that does not fit uint64 is an
-  error); `stringToBpsPinned` is the pinned code, whose `v * unit` wraps modulo 2^64.
+  `stringToBps` is the code as it is: `v * unit / 8` is uint64 arithmetic, so the product
+  is taken modulo 2^64 (an absurdly large configured value is read as a smaller one; noticed,
+  outside C10, which bounds the rate by the limit the program actually holds).
   Core Lean only.
 -/
 import Hy.Model.Rate
@@ -111,7 +112,7 @@ inductive BpsRes where
   | ok (n : Nat)
   /-- "invalid format": no leading digits, or nothing after them -/
   | errFormat
-  /-- strconv range error on the digits, or (with D15) a product that does not fit uint64 -/
+  /-- strconv range error on the digits (more than 2^64-1) -/
   | errRange
   /-- "unsupported unit" -/
   | errUnit
@@ -136,16 +137,11 @@ def stringToBpsWith (k : Nat → Nat → BpsRes) (r : List Nat) : BpsRes :=
       | none => .errUnit
     | _ => .errRange
 
-/-- the code with fixes/D15.patch: `hi, lo := bits.Mul64(v, unit); hi != 0 → error` -/
+/-- `return v * unit / 8, nil` with `v`, `unit` uint64: the product wraps modulo 2^64 -/
 def stringToBpsR (r : List Nat) : BpsRes :=
-  stringToBpsWith (fun v f => if U64Max < v * f then .errRange else .ok (v * f / 8)) r
-
-/-- the pinned code: `v * unit / 8` in uint64 arithmetic — the product wraps -/
-def stringToBpsPinnedR (r : List Nat) : BpsRes :=
   stringToBpsWith (fun v f => .ok (v * f % 18446744073709551616 / 8)) r
 
 def stringToBps (s : Bytes) : BpsRes := stringToBpsR (decode s)
-def stringToBpsPinned (s : Bytes) : BpsRes := stringToBpsPinnedR (decode s)
 
 /-- `ConvBandwidth(interface{})`: a string goes through StringToBps, an `int` is converted
     with `uint64(i)` (two's complement); the app's config fields are strings, so only the
